@@ -30,8 +30,9 @@ type Spec struct {
 	Overlay    bool   `json:"overlay,omitempty"` // in-place (overlay bowl) instead of fresh bowl
 	Seed       int64  `json:"seed"`              // derives sampled ks, lags, truncation lengths, garbage
 	MaxResumes int    `json:"max_resumes"`
-	Pattern    []bool `json:"pattern,omitempty"` // ShouldSave answers, cyclic
-	Chain      []int  `json:"chain,omitempty"`   // successive interruptions: stop at the c-th save of each session
+	Pattern    []bool `json:"pattern,omitempty"`  // ShouldSave answers, cyclic
+	Chain      []int  `json:"chain,omitempty"`    // successive interruptions: stop at the c-th save of each session
+	Liveness   bool   `json:"liveness,omitempty"` // the pair is the "many messages, much incompressible data" shape: every compression format must offer checkpoints
 }
 
 type saver struct {
@@ -297,10 +298,28 @@ func check(s Spec) h.Result {
 	if s.Comp.Algo == 0 && maxMsgs >= 4 && N == 0 {
 		return fail("a consumer that always asks to save was never given a checkpoint although a series has %d messages", maxMsgs)
 	}
+	if s.Liveness {
+		cl = append(cl, "liveness:"+compName)
+		// brotli at quality >= 2 emits metablocks of several MiB: an always-saving consumer got only 1-2
+		// checkpoints from these 3-5 MiB patches on the unchanged tree, too thin a margin to demand one.
+		// Every other setting offered >= 32.
+		thin := s.Comp.Algo == 1 && s.Comp.Q >= 2
+		if N == 0 && !thin {
+			return fail("a consumer that always asks to save was never given a checkpoint, although the patch streams a series of %d messages and is %d bytes long (%s)", maxMsgs, len(patch), compName)
+		}
+	}
 	if N == 0 {
 		return h.Result{Classes: append(cl, "no-checkpoint-offered"), Sub: sub}
 	}
 	cl = append(cl, fmt.Sprintf("cell:%s/%s/%s", bowlName, map[bool]string{false: "plain", true: "optimized"}[s.Optimize], compName))
+	extra := map[string]int{}
+	if s.Liveness {
+		extra["liveness_cases_"+compName] = 1
+		extra["liveness_checkpoints_total_"+compName] = N
+		if N < 5 {
+			extra["liveness_cases_with_fewer_than_5_checkpoints_"+compName] = 1
+		}
+	}
 
 	r := rand.New(rand.NewSource(s.Seed))
 	// which checkpoints
@@ -470,7 +489,7 @@ outer:
 		}
 	}
 	_ = pwr.BlockSize
-	return h.Result{Classes: cl, NonTrivial: nt, Sub: sub}
+	return h.Result{Classes: cl, NonTrivial: nt, Sub: sub, Extra: extra}
 }
 
 func genComp(t *rapid.T) h.Comp {
@@ -514,13 +533,32 @@ func genBig(t *rapid.T, p h.Pair) h.Pair {
 	return p
 }
 
+// livenessPair: one file of 64-96 blocks of incompressible data, cut every two blocks by a fresh insert
+// of 100-200KB: a series of >= 65 messages carrying 3-10 MiB of incompressible data. Calibrated on the
+// unchanged tree (see DESIGN.md section 13.2): the minimum number of checkpoints offered to an
+// always-saving consumer over several hundred such patches is recorded there; the check requires >= 1.
+func livenessPair(t *rapid.T) h.Pair {
+	nb := 2 * rapid.IntRange(32, 48).Draw(t, "live-block-pairs")
+	oc := h.Content{{Src: 25, Len: nb * h.BS}}
+	nc := h.Content{}
+	for i := 0; i < nb/2; i++ {
+		nc = append(nc, oc.Slice(i*2*h.BS, (i+1)*2*h.BS)...)
+		nc = append(nc, h.Piece{Src: 26, Off: i * 210000, Len: rapid.IntRange(100000, 200000).Draw(t, "live-insert-len")})
+	}
+	return h.Pair{Old: h.Tree{{Path: "L", Kind: h.KFile, C: oc}}, New: h.Tree{{Path: "L", Kind: h.KFile, C: nc}}}
+}
+
 var prop = h.Prop[Spec]{
 	ID: "C03", Name: "resume",
 	Gen: func(t *rapid.T) Spec {
 		p := h.GenPair(t, h.GenOpts{ManyEdits: true, MaxOld: 4, MaxOps: 5, ConstCap: 16384})
 		p = genBig(t, p)
-		s := Spec{Pair: p, Comp: genComp(t)}
-		s.Optimize = rapid.IntRange(0, 2).Draw(t, "optimize") == 0
+		live := rapid.IntRange(0, 11).Draw(t, "liveness") == 0
+		if live {
+			p = livenessPair(t)
+		}
+		s := Spec{Pair: p, Comp: genComp(t), Liveness: live}
+		s.Optimize = rapid.IntRange(0, 2).Draw(t, "optimize") == 0 && !live
 		if s.Optimize {
 			s.Parts = rapid.IntRange(0, 3).Draw(t, "parts")
 		}
